@@ -195,6 +195,45 @@ func VerifC01Fold(h *verifrt.H) {
 	h.Cover("end")
 }
 
+var vfDataLens = []int{0, 1, 9, 20}
+
+// VerifC01Sizes: entries of very different sizes (payload 0, 1, 9 or 20 symbolic bytes) against
+// a symbolic block size, so that an entry can be smaller than half a block, fill a block on its
+// own or exceed it while earlier entries are still buffered: the file replays to the
+// last-writer-wins fold in WRITE order, whatever the writer does with oversized entries.
+func VerifC01Sizes(h *verifrt.H) {
+	path := h.TempDir() + "/z.hyd"
+	bs := h.IntRange("blockSize", 1, 64)
+	ref := &vfRef{}
+	w, err := NewFileWriterWithName(path, bs, "n")
+	h.Assert(err == nil, "open")
+	n := h.Param("nOps", 3)
+	var es []Entry
+	for i := 0; i < n; i++ {
+		e := Entry{Operation: vfOpcodes[h.Choose("opcode", h.Param("opcodes", 2))], Key: h.String("key", 1)}
+		e.Data = h.Bytes("data", vfDataLens[h.Choose("dLenClass", len(vfDataLens))])
+		es = append(es, e)
+	}
+	if h.Choose("batch", 2) == 1 {
+		if w.WriteEntries(es) == nil {
+			for _, e := range es {
+				ref.apply(e)
+			}
+		}
+	} else {
+		for _, e := range es {
+			if w.WriteEntry(e) == nil {
+				ref.apply(e)
+			}
+		}
+	}
+	h.Assert(w.Close() == nil, "final-close")
+	idx, _, lerr := vfLoad(h, path)
+	h.Assert(lerr == nil, "sizes-load-ok")
+	h.Assert(ref.equals(idx), "sizes-last-writer-wins")
+	h.Cover("end")
+}
+
 // ---------- C02 ----------
 
 var vfKeys = []string{"a", "b", "c"}
@@ -373,8 +412,26 @@ func VerifC25DiskFull(h *verifrt.H) {
 func VerifC29Name(h *verifrt.H) {
 	path := h.TempDir() + "/n.hyd"
 	name := h.String("name", h.Len("nameLen", 0, h.Param("maxName", 3)))
-	layout := h.Choose("layout", 3)
+	layout := h.Choose("layout", 5)
 	switch layout {
+	case 3, 4: // drained swamp: every key deleted again, then compacted (3: Compact, 4: CompactFromIndex)
+		w, err := NewFileWriterWithName(path, 32, name)
+		h.Assert(err == nil, "open")
+		h.Assert(w.WriteEntry(Entry{Operation: OpInsert, Key: "a", Data: []byte{1}}) == nil, "write")
+		h.Assert(w.WriteEntry(Entry{Operation: OpDelete, Key: "a"}) == nil, "delete")
+		h.Assert(w.Close() == nil, "close")
+		if layout == 3 {
+			_, cerr := NewCompactor(path, 32, 0).ForceCompact()
+			h.Assert(cerr == nil, "compact-drained")
+		} else {
+			_, cerr := CompactFromIndex(path, 32, name, map[string][]byte{}, 2)
+			h.Assert(cerr == nil, "compact-drained")
+		}
+		if !h.FileExists(path) {
+			// deleting a file without live records is a legal outcome: nothing to look up
+			h.Cover("end")
+			return
+		}
 	case 0, 1: // V3 writer; 1 = plus a second append session
 		w, err := NewFileWriterWithName(path, 32, name)
 		h.Assert(err == nil, "open")
